@@ -18,27 +18,27 @@ def lifecycle(prog):
     return "stop" in names or "join" in names
 
 
-def jobs(tier):
+def harnesses(tier):
     if tier == "quick":
-        j = P.curated_jobs(LIFE, [(1, 1), (2, 0), (2, 2)], "sync", 1, 0)
-        j += P.curated_jobs(["P5-between-stop-and-restart", "P6-stop-races-enqueue", "P14-join-while-gated-runs", "P20-timed-join-with-gated",
-                             "P21-stop-with-join-racing", "P15-double-start-stop"], [(2, 0)], "sync", 1, 1)
-        j += P.curated_jobs(LIFE, [(1, 0)], "sync", 2, 0)
-        j += P.generated_jobs(3, [(1, 1), (2, 0)], "sync", 1, 1, keep=lifecycle)
-        j += P.generated_jobs(4, [(2, 0)], "sync", 1, 0, keep=lambda p: [o[0] for o in p].count("stop") >= 1 and lifecycle(p), Lmin=4)
-        j += P.curated_jobs(["P6-stop-races-enqueue", "P14-join-while-gated-runs", "P15-double-start-stop", "P5-between-stop-and-restart"],
-                            [(1, 1), (2, 0)], "line", 1, 0)
+        h = P.curated_h(LIFE, [(1, 0), (1, 1), (2, 0), (2, 2)], "sync")
+        h += P.generated_h(3, [(1, 1), (2, 0)], "sync", keep=lifecycle)
+        h += P.generated_h(4, [(2, 0)], "sync", keep=lambda p: [o[0] for o in p].count("stop") >= 1 and lifecycle(p), Lmin=4)
+        h += P.curated_h(["P6-stop-races-enqueue", "P14-join-while-gated-runs", "P15-double-start-stop", "P5-between-stop-and-restart",
+                          "P10-stop-enq-start", "P21-stop-with-join-racing"], [(1, 1), (2, 0)], "line")
     else:
         sizes = [(1, 0), (1, 1), (2, 0), (2, 1), (2, 2), (3, 1)]
-        j = P.curated_jobs(LIFE, sizes, "sync", 2, 1)
-        j += P.generated_jobs(4, [(1, 1), (2, 0), (2, 2)], "sync", 1, 1, keep=lifecycle)
-        j += P.generated_jobs(5, [(2, 0)], "sync", 1, 0, keep=lambda p: [o[0] for o in p].count("stop") >= 1, Lmin=5)
-        j += P.curated_jobs(LIFE, [(1, 1), (2, 0), (2, 2)], "line", 1, 1)
-    return j
+        h = P.curated_h(LIFE, sizes, "sync")
+        h += P.generated_h(4, [(1, 1), (2, 0), (2, 2)], "sync", keep=lifecycle)
+        h += P.generated_h(5, [(2, 0)], "sync", keep=lambda p: [o[0] for o in p].count("stop") >= 1, Lmin=5)
+        h += P.curated_h(LIFE, [(1, 1), (2, 0), (2, 2)], "line")
+    return h
+
+
+BUDGET = {"quick": 1200, "thorough": 60000}
 
 
 def leg(part, tier, shard, nshards):
-    P.run_pool_leg(part, PROP, jobs(tier))
+    P.run_pool_leg(part, PROP, harnesses(tier), BUDGET[tier])
 
 
 LEGS = {"schedules": leg}
@@ -52,7 +52,8 @@ META = {
     "over {start, stop, enqueue x3 kinds, open, result, join, join(5), sleep} containing stop or join, plus 12 curated programs with a second thread "
     "enqueuing / joining / opening a gate during stop(); every schedule within K preemptions and T early timer firings; non-trivial = execution "
     "with a choice point",
-    "bounds": {"quick": {"program_length": "3-4", "K": "1-2", "T": "0-1"}, "thorough": {"program_length": "4-5", "K": "1-2", "T": 1}},
+    "bounds": {"quick": {"program_length": "3-4", "levels": "iterative (K,T) ladder (0,0) (1,0) (1,1) (2,1) (3,1) (3,2) (4,2) per harness while the predicted size of the next level is <= 1200 executions; deepest completed level per harness in notes.completed_bounds"},
+               "thorough": {"program_length": "4-5", "levels": "same ladder, predicted size <= 60000"}},
     "assumptions": [
         "join()==True is only judged for joins on a running pool during which no stop() was invoked (property text)",
         "thread switches only at synchronisation operations (line boundaries of threadpool.py in the line harnesses)",
